@@ -71,8 +71,13 @@ def run_history(desc):
             out.append([l for l in allL if l not in out][0])
         return out
 
+    mems = ["C", "F", "T", "S"]
+
     def mk(letters, tag="x"):
-        return build.array(U, {"letters": letters, "mode": "coded", "tag": tag})
+        mk.n += 1
+        return build.array(U, {"letters": letters, "mode": "coded", "tag": tag, "mem": mems[mk.n % 4]})
+
+    mk.n = 0
 
     pool.append(mk(pick_letters(desc["start"], 1)))
 
